@@ -13,6 +13,7 @@ every well-formed file of length <= S-1 and must be rejected.
 Layers: ff (read_ff), itp (read_itp), map (.map backward files), mapping (.mapping files).
 """
 import itertools
+import os
 
 from mc import common
 from mc.common import Acc
@@ -562,8 +563,8 @@ def sequences(max_len):
 
 
 def run(ctx):
-    max_len = 3 if ctx.quick else 4
-    fault_len = 2 if ctx.quick else 3
+    max_len = 3 if ctx.quick else int(os.environ.get('VERIF_C13_LEN', '6'))
+    fault_len = 2 if ctx.quick else int(os.environ.get('VERIF_C13_FAULT_LEN', '4'))
     ctx.bound = {'ff_top_level_sections': max_len, 'fault_injection_file_length': fault_len}
     seqs = list(sequences(max_len))
     acc = Acc()
